@@ -18,7 +18,7 @@ def G(name, op, ns, tiers, extra=(), rc=RC, nc=4, extra_unwind=(), **kw):
               desc="collector %s from an arbitrary valid %d-slot registry, %d managed cells" % (name, ns, nc), **kw)
 Q = ("quick", "thorough")
 T = ("thorough",)
-RECB = ["verif_destruct:3", "GC_Rem:3", "GC_Rem_Ptr:3", "verif_dealloc:3", "GC_Sweep.3:4", "GC_Sweep.1:9", "GC_Sweep.0:7", "GC_Sweep.2:7", "GC_Rem_Ptr.0:4"]
+RECB = ["verif_destruct:3", "GC_Rem:3", "GC_Rem_Ptr:3", "verif_dealloc:3", "GC_Sweep.3:4", "GC_Sweep.1:9", "GC_Sweep.0:4", "GC_Sweep.2:7", "GC_Rem_Ptr.0:4", "GC_Rem_Ptr.1:4", "GC_Rem_Ptr.2:4", "GC_Ideal_Size.0:26"]
 MS = ["GC_Mark:verif_mark_stub", "GC_Sweep:verif_sweep_stub"]
 OBLIGATIONS = (
     [G("hash", "OP_HASH", 5, Q, rc=[])]
@@ -26,7 +26,8 @@ OBLIGATIONS = (
     + [G("mem.home%d" % h, "OP_MEM", 5, Q if h in (0, 3) else T, ["HOME=%d" % h]) for h in range(5)]
     + [G("rem.home%d" % h, "OP_REM", 5, Q if h in (1, 4) else T, ["HOME=%d" % h, "NO_OWNERSHIP"]) for h in range(5)]
     + [G("sweep.noown.nc3", "OP_SWEEP", 5, Q, ["NO_OWNERSHIP"], nc=3, timeout=1800),
-       G("sweep.own", "OP_SWEEP_OWN", 5, Q, nc=2, timeout=1800, extra_unwind=RECB), G("sweep.own.swap", "OP_SWEEP_OWN", 5, Q, ["SWAP"], nc=2, timeout=1800, extra_unwind=RECB),
+       G("sweep.own", "OP_SWEEP_OWN", 5, ("probe",), nc=2, timeout=1800, extra_unwind=RECB), G("sweep.own.swap", "OP_SWEEP_OWN", 5, ("probe",), ["SWAP"], nc=2, timeout=1800, extra_unwind=RECB),
+       G("rem_pending.home1", "OP_REM_PENDING", 5, Q, ["HOME=1", "NO_OWNERSHIP"], nc=3), G("rem_pending.home4", "OP_REM_PENDING", 5, Q, ["HOME=4", "NO_OWNERSHIP"], nc=3),
        G("mark_item", "OP_MARK_ITEM", 5, Q, rc=RC + ["GC_Recurse:verif_recurse_stub"]),
        G("recurse", "OP_RECURSE", 5, Q, rc=RC + ["GC_Mark_Item:verif_item_stub"]),
        G("mark_top", "OP_MARK_TOP", 5, Q, rc=RC + ["GC_Mark_Item:verif_item_stub", "GC_Recurse:verif_recurse_stub"])]
